@@ -54,7 +54,7 @@ def run_suite(ctx, props, thorough=None, kind="mirror"):
     failed = [ln for ln in p.stdout.splitlines() if ln.startswith("FAIL\t") or ln.startswith("--- FAIL")]
     if events == 0:
         raise vlib.Inconclusive("the monitored suite produced no kernel events:\n" + p.stdout[-2000:])
-    ctx.log("monitored suite: %d kernel events in %d packages, %d monitor violations for %s%s" %
+    ctx.log("monitored suite: %d trace points in %d packages, %d monitor violations for %s%s" %
             (events, len(pkgs), nviol, sorted(props), (", %d repository test failures (not a verdict)" % len(failed)) if failed else ""))
     return {"suite_packages": pkgs, "suite_events_monitored": events, "suite_instances": kernels,
             "suite_repo_test_failures_ignored": failed[:10]}
